@@ -403,6 +403,12 @@ pub fn eval(ms0: &ModuleSet) -> Verdict {
             }
         }
     }
+    // the TypeScript backend: every imported symbol becomes `import X = Sibling.X;` in the
+    // importing namespace (C18's clause; also with an object class first / in the middle / last
+    // in the IMPORTS list, which has no TypeScript counterpart and must not disturb the others)
+    if let Some(what) = crate::props::c18::ts_import_failure(ms0) {
+        return Verdict::Fail { key: "ts:import".into(), finding: None, what: format!("TypeScript backend: {what}"), observed: json!(null), nontrivial: true };
+    }
     Verdict::Pass { nontrivial, classes: feats.iter().map(|s| s.to_string()).collect() }
 }
 
